@@ -1,7 +1,7 @@
 (* Model/SymInst.v — the five built-in symmetries as instances of Base.Sym,
    assembled from the GENERATED definitions in Gen/Symmetries.v. *)
 From SV Require Import Base.Prelude Base.Sym Gen.Symmetries.
-Open Scope Z_scope.
+Local Open Scope Z_scope.
 
 Definition Z2 : Symmetry := {| C := Z; ceqb := Z.eqb; cltb := Z.ltb; valid_all := Z2_valid;
   combine := Z2_combine; sign := Z2_sign; parityZ := Z2_parity |}.
